@@ -1,0 +1,32 @@
+//! Verification hooks (feature `verif-hooks`, off by default).
+//!
+//! Read-only windows onto crate-private items used by the external
+//! verification harness. Nothing in here changes library behaviour.
+
+#![allow(missing_docs, missing_debug_implementations)]
+
+#[cfg(feature = "client")]
+pub use crate::happy_eyeballs::{EyeballSet, HappyEyeballsError};
+
+/// Run the crate-private `SocketAddrs::set_port` / `sort_preferred` / `pop` sequence
+/// on a list of addresses and return the order in which `pop` yields them.
+#[cfg(feature = "client")]
+pub fn sort_preferred(
+    addrs: Vec<std::net::SocketAddr>,
+    prefer: Option<crate::client::conn::dns::IpVersion>,
+    port: Option<u16>,
+    sort: bool,
+) -> Vec<std::net::SocketAddr> {
+    let mut addrs: crate::client::conn::dns::SocketAddrs = addrs.into_iter().collect();
+    if let Some(port) = port {
+        addrs.set_port(port);
+    }
+    if sort {
+        addrs.sort_preferred(prefer);
+    }
+    let mut out = Vec::with_capacity(addrs.len());
+    while let Some(addr) = addrs.pop() {
+        out.push(addr);
+    }
+    out
+}
